@@ -1386,4 +1386,67 @@ example : (igLH ([[0, 0], [1, 1]] : List (List Rat)) [[1, 1], [0, 3]] 1000000 0 
 
 end iglh
 
+/-! ## PolymatrixGame.range_of_payoffs -/
+
+section range
+variable {K : Type} [Field K] [LinearOrder K] [IsStrictOrderedRing K]
+
+theorem foldl_min_ge_iff (l : List K) (a t : K) :
+    t ≤ l.foldl (fun acc x => if x < acc then x else acc) a ↔ t ≤ a ∧ ∀ v ∈ l, t ≤ v := by
+  induction l generalizing a with
+  | nil => simp
+  | cons v l ih =>
+    rw [List.foldl_cons, ih]
+    have h : t ≤ (if v < a then v else a) ↔ t ≤ a ∧ t ≤ v := by
+      split_ifs with hc
+      · exact ⟨fun h => ⟨le_trans h (le_of_lt hc), h⟩, fun h => h.2⟩
+      · exact ⟨fun h => ⟨h, le_trans h (not_lt.mp hc)⟩, fun h => h.1⟩
+    rw [h]
+    simp only [List.mem_cons, forall_eq_or_imp]
+    tauto
+
+theorem foldl_min_mem (l : List K) (a : K) :
+    l.foldl (fun acc x => if x < acc then x else acc) a = a ∨
+    l.foldl (fun acc x => if x < acc then x else acc) a ∈ l := by
+  induction l generalizing a with
+  | nil => simp
+  | cons v l ih =>
+    rw [List.foldl_cons]
+    rcases ih (if v < a then v else a) with h | h
+    · rw [h]
+      split_ifs
+      · right; simp
+      · left; rfl
+    · right; exact List.mem_cons_of_mem _ h
+
+/-- **`range_of_payoffs()` is the exact range**: for a non-empty list of entries, the first
+    component is a lower bound of all entries and is one of them, the second an upper bound and one of
+    them — the global minimum and the global maximum, whichever matrices they sit in. -/
+theorem hRange_spec (e : List K) (hne : e ≠ []) :
+    (∀ x ∈ e, (hRange e).1 ≤ x) ∧ (hRange e).1 ∈ e ∧ (∀ x ∈ e, x ≤ (hRange e).2) ∧ (hRange e).2 ∈ e := by
+  cases e with
+  | nil => exact absurd rfl hne
+  | cons a as =>
+    have hmax : (hRange (a :: as)).2 = vecMax (a :: as) := rfl
+    refine ⟨?_, ?_, ?_, ?_⟩
+    · have := (foldl_min_ge_iff as a (hRange (a :: as)).1).mp (le_refl _)
+      intro x hx
+      rcases List.mem_cons.mp hx with rfl | h
+      · exact this.1
+      · exact this.2 x h
+    · show as.foldl (fun acc x => if x < acc then x else acc) a ∈ a :: as
+      rcases foldl_min_mem as a with h | h
+      · rw [h]; simp
+      · exact List.mem_cons_of_mem _ h
+    · rw [hmax]; exact (vecMax_le_iff _ (by simp) _).mp (le_refl _)
+    · rw [hmax]; exact vecMax_mem _ (by simp)
+
+omit [IsStrictOrderedRing K] in
+/-- `positive_cost_maker = range_of_payoffs()[1] + LOW_AVOIDER` -/
+theorem hPcm_eq_range_max (e : List K) : hPcm e = (hRange e).2 + (1 + 1) := rfl
+
+example : hRange ([3, 1, 5, 0, 99, 7] : List Rat) = (0, 99) := by decide +kernel
+
+end range
+
 end QE.C15
